@@ -7,6 +7,7 @@ wt=/tmp/wt/$prop; out=/tmp/wt/$prop-out
 dst=/verif/seeded/$prop-$n
 [ -f $out/patch$n.diff ] || { echo "no patch"; exit 9; }
 git -C $wt checkout -q -- . ; git -C $wt clean -fdq
+git -C $wt checkout -q --detach $(git -C /repo rev-parse HEAD)
 git -C $wt apply $out/patch$n.diff || { echo "patch does not apply"; exit 9; }
 tests=$(cd $wt && /venv/bin/python -m pytest -q -p no:cacheprovider 2>&1 | tail -1)
 (cd $wt && PYTHONPATH=$wt /venv/bin/python $out/demo$n.py >/dev/null 2>&1); demo_with=$?
